@@ -58,8 +58,8 @@ Proof. exact no_panic_array_at. Qed.
 Theorem C10_no_panic_array_gen : forall n, no_panic (op_array_gen_len n).
 Proof. exact no_panic_array_gen. Qed.
 
-(* std.string.find / find_all: refuted on the unchanged tree, exactly for a match that starts at
-   the end of the string; proved for the repair *)
+(* std.string.find / find_all: the look-up before commit c9daf53 is refuted, exactly for a match
+   that starts at the end of the string; the code as it is now is proved panic-free *)
 Theorem C10_find_all_index_refuted : exists offsets len m site, find_all_index offsets len m = Panic site.
 Proof. exact find_all_index_panics. Qed.
 
@@ -143,7 +143,7 @@ Proof. exact select_uniq_fixed_terminates. Qed.
 Theorem C10_no_panic_candidate_char : forall next, no_panic (candidate_char next).
 Proof. exact no_panic_candidate_char. Qed.
 
-(* ---------------------------------------------------------------- known defects: refuted / repaired *)
+(* ---------------------------------------------------------------- findings of this property: old code refuted, current code proved *)
 Theorem C10_pretty_print_cap_refuted : exists widths max_width site,
   Forall (fun w => (1 <= w <= 4)%Z) widths /\ (0 <= max_width)%Z /\ pretty_print_cap widths max_width = Panic site.
 Proof. exact pretty_print_cap_panics. Qed.
